@@ -123,6 +123,10 @@ impl UntypedEntry {
         if let Some(d) = &self.dynamic {
             unsafe {
                 let _g = d.lock.write();
+                #[cfg(assets_manager_verif)]
+                detsim::probe("write_locked", self as *const Self as *const u8 as u64);
+                #[cfg(assets_manager_verif)]
+                detsim::atomic_point(detsim::AT_RELOAD, "entry.write.locked");
                 swap_any(&mut *self.value.get(), value.0.value.get_mut());
                 #[cfg(assets_manager_verif)]
                 detsim::atomic_point(detsim::AT_RELOAD, "entry.write.increment");
@@ -130,6 +134,8 @@ impl UntypedEntry {
                 #[cfg(assets_manager_verif)]
                 detsim::atomic_point(detsim::AT_RELOAD, "entry.write.flag");
                 d.reload_global.store(true, Ordering::Release);
+                #[cfg(assets_manager_verif)]
+                detsim::probe("write_unlocking", self as *const Self as *const u8 as u64);
             }
             return;
         }
